@@ -101,7 +101,10 @@ def run_imputer_plan(plan):
         events.append(("M", dict(x), dict(out)))
         return out
 
-    defaults = {nme: -(j + 1) for j, nme in enumerate(names)}
+    # configured defaults include falsy values (0, 0.0, False): "the configured default" must be used whatever it is
+    falsy = [0, 0.0, False]
+    defaults = {nme: (falsy[H(seed, "dflt", j) % 3] if H(seed, "dflt?", j) % 3 == 0 else -(j + 1))
+                for j, nme in enumerate(names)}
     try:
         if use_tape:
             tape.install()
@@ -194,7 +197,7 @@ def run_imputer_plan(plan):
                                     % (f, S, x_before[f], inp[f]), i)
                 if kind == "default":
                     for f in S:
-                        if inp[f] != defaults[f]:
+                        if inp[f] != defaults[f] or type(inp[f]) is not type(defaults[f]):
                             return viol("not-the-default", "feature %r: model input %r, configured default %r"
                                         % (f, inp[f], defaults[f]), i)
                 elif kind == "marginal-joint":
